@@ -124,6 +124,17 @@ def run(res, f, tier):
                     "await(RuleSet::evaluate_value(self, impl Serialize::serialize!(facts, ValueSerializer)))")])
     ob(got == want, "C09|evaluate", "evaluate must serialise the input with the Value serializer, fail only if that fails, and otherwise return "
        "evaluate_value(self, serialized) unchanged: %s" % got)
+    # isolation also needs the one thing the rules share — the per-evaluation function cache — to be transparent:
+    # a cached entry must be the successful result of the same (function, argument); otherwise one rule's call
+    # (or failure) changes another rule's outcome.  The transparency rules are C11's; their verdict is imported.
+    import c11
+    from framework import Result
+    r11 = Result("C11", "other")
+    c11.run(r11, f, tier)
+    poisoning = [v for v in r11.violations if v["key"] in ("C11|same-key", "C11|key-content", "C11|hit", "C11|miss-ok", "C11|failures-not-cached", "C11|right-function")]
+    ob(not poisoning, "C09|shared-cache-transparent",
+       "the function cache shared by the rules of one evaluation is not transparent, so a rule's outcome can depend on the other rules: %s" % [v["what"][:160] for v in poisoning],
+       {"c11_findings": [v["key"] for v in poisoning]})
     res.coverage = {
         "explanation": "All paths (rule loop unrolled %d times) of the coroutine bodies of RuleSet::evaluate_value and RuleSet::evaluate were enumerated with their "
                        "ordered calls; they must equal the specified path set: one push of Outcome{value: awaited per-rule result (no `?`), rule: the same rule} "
